@@ -16,6 +16,8 @@ CLAIMED = {
              note="real device meshes bar2/bar3 with symbolic weights; one inductive step; Poisson solve opaque; exact reals", ref="5/C06"),
  "C12": dict(text="One inductive step of the real TDGLSolver.update/adaptive_euler_step from an arbitrary solver state (arbitrary proposed dt in (0, dt_max], arbitrary history of max|d|psi|^2|, symbolic dt_init <= dt_max and multiplier) for steps inside, at the edge of and after the window and every scripted number of kernel refusals: used dt = proposed * mult^k, 0 < dt <= dt_max, next proposal = min((dt + dt_init/delta)/2, dt_max) with the 1e-10 floor, retry exhaustion raises and is never answered, adaptivity off keeps dt_init; plus a multi-step run in the thorough tier.",
              note="psi-kernel and Poisson solve opaque (arbitrary |psi'|^2, scripted refusals); exact reals; window <= 5, retries <= 3; lenient about the documented off-by-one of the retry count", ref="5/C12"),
+ "C05": dict(text="The real Runner.run/_run_stage, RunningState, DataHandler (in-memory HDF5 tree), DynamicsData.from_hdf5 and Solution.times are executed with symbolic step sizes, solve time and thermalisation time for every save interval 1..N+2, 0/2/3 probes and thermalisation on/off; every path (stopping pattern) is checked against an executable specification: frame steps 0,k,2k,..,final; frame (s,t) holds exactly s updates and t = sum of the first s steps; one per-step record per step in order; stop at the first step with time >= solve time; thermalisation unrecorded; Solution.times = frame times.",
+             note="N <= 4 steps per stage (quick) / 7 (thorough); update function opaque (arbitrary step sizes in [1/2,1]); HDF5, tqdm, logging stubbed; real-valued clocks", ref="5/C05"),
 }
 NA = {
 }
